@@ -312,32 +312,20 @@ theorem deleteAny_present (s : S) (h p : Nat) (hh : h < s.tree.size) (hp : posOf
   have hn : ¬ (h ≥ s.tree.size) := by omega
   simp [EditX.step, hn, hp]
 
-/-- Which search entry points carry the guard: all of them except `CiscoConfParse.re_match_iter_typed`. -/
-theorem guarded_all_but_one (k : EditX.Search) : EditX.guarded k = false ↔ k = .ccpReMatchIterTyped := by
-  cases k <;> simp [EditX.guarded]
-
-/-
-FULL STATEMENT (what the property says: *every* search refuses on a stale state):
-  theorem search_refuses_iff_stale (s : S) (k : EditX.Search) :
-      (EditX.step s (.search k)).1 = s ∧
-      ((EditX.step s (.search k)).2 = .error (.base .notImplemented) ↔ s.stale = true) ∧
-      ((EditX.step s (.search k)).2 = .ok () ↔ s.stale = false)
-It is FALSE for the code as it is, for `k = .ccpReMatchIterTyped` (`search_unguarded_answers` below; known finding
-FC07a, proposed repair notes/proposed-fixes/C07-1.patch).  Proved: the statement for the fifteen guarded entry points.
--/
-theorem search_refuses_iff_stale_partial (s : S) (k : EditX.Search) (hg : EditX.guarded k = true) :
+/-- **Every search refuses exactly on a stale state**: each of the sixteen search entry points never changes the
+state, raises `NotImplementedError` exactly when the state is stale and answers otherwise.
+(Before the repair `fix: CiscoConfParse.re_match_iter_typed() refuses to search an uncommitted config` the sixteenth
+one, `CiscoConfParse.re_match_iter_typed`, had no guard and answered from the uncommitted list -- finding FC07a; this
+theorem was then `search_refuses_iff_stale_partial`, for the fifteen guarded entry points only.) -/
+theorem search_refuses_iff_stale (s : S) (k : EditX.Search) :
     (EditX.step s (.search k)).1 = s ∧
     ((EditX.step s (.search k)).2 = .error (.base .notImplemented) ↔ s.stale = true) ∧
     ((EditX.step s (.search k)).2 = .ok () ↔ s.stale = false) := by
-  have hs : EditX.step s (.search k) = EditX.liftRes (step s .probe) := by simp [EditX.step, hg]
+  have hs : EditX.step s (.search k) = EditX.liftRes (step s .probe) := rfl
   rw [hs]
   refine ⟨rfl, ?_, ?_⟩
   · rw [EditX.liftRes_err]; exact (probe_refuses_iff_stale s).2.1
   · rw [EditX.liftRes_ok]; exact (probe_refuses_iff_stale s).2.2
-
-/-- The model of the finding: `CiscoConfParse.re_match_iter_typed` answers in every state, stale or not. -/
-theorem search_unguarded_answers (s : S) :
-    EditX.step s (.search .ccpReMatchIterTyped) = (s, .ok ()) := rfl
 
 /-- A call with a malformed argument is rejected with the error class of the code and changes nothing. -/
 theorem malformed_rejected (s : S) (txt : Str) (k : Int) (after : Bool) :
@@ -361,18 +349,18 @@ theorem listInsObj_spec (s : S) (after emptyRx : Bool) (row : List Bool) (txt : 
   cases after <;> cases emptyRx <;> simp [EditX.step, EditX.liftRes, Edit.step, hb]
 
 /-- **Stale tree refuses, commit restores, over the extended alphabet** (auto-commit off): after a list
-`insert` and any further extended operations that are not `commit`, every guarded search raises
+`insert` and any further extended operations that are not `commit`, every search entry point raises
 `NotImplementedError`; after the `commit` it answers again. -/
 theorem staleX_refuses (s : S) (ha : s.auto = false) (k : Int) (txt : Str) (ops : List EditX.Op)
-    (hno : ∀ op ∈ ops, op ≠ .base .commit) (q : EditX.Search) (hg : EditX.guarded q = true) :
+    (hno : ∀ op ∈ ops, op ≠ .base .commit) (q : EditX.Search) :
     let s' := EditX.run (step s (.insert k txt)).1 ops
     (EditX.step s' (.search q)).2 = .error (.base .notImplemented) ∧
     (EditX.step (commit s') (.search q)).2 = .ok () := by
   intro s'
   have h1 : (step s (.insert k txt)).1.auto = false := by rw [(step_frame s _).2.1, ha]
   have h2 := EditX.run_stale_keeps _ ops h1 (insert_sets_stale s ha k txt).2 hno
-  exact ⟨(search_refuses_iff_stale_partial s' q hg).2.1.mpr h2,
-         (search_refuses_iff_stale_partial (commit s') q hg).2.2.mpr rfl⟩
+  exact ⟨(search_refuses_iff_stale s' q).2.1.mpr h2,
+         (search_refuses_iff_stale (commit s') q).2.2.mpr rfl⟩
 
 /-! ## non-vacuity: a concrete config and concrete histories -/
 
@@ -444,14 +432,13 @@ example : (init exCfg true 1 exLines).dirty = false ∧ 0 < (init exCfg true 1 e
 def exPopped : S := (step (init exCfg false 1 exLines) (.pop 4)).1
 example : 4 < exPopped.tree.size ∧ posOf exPopped.items 4 = none ∧ posOf exPopped.items 3 = some 3 ∧
     (EditX.step exPopped (.deleteAny 4)).2 = .error (.base .doesNotExist) := by decide
-/-- hypotheses of `search_refuses_iff_stale_partial` / `staleX_refuses`, and the finding: on the same stale
-state a guarded search refuses and `CiscoConfParse.re_match_iter_typed` answers -/
-example : EditX.guarded .findObjects = true ∧ EditX.guarded .allParents = true := by decide
+/-- hypotheses of `staleX_refuses`; on a stale state every entry point refuses, `CiscoConfParse.re_match_iter_typed`
+included (it answered there before the repair of FC07a) -/
 example : ∀ op ∈ [EditX.Op.remove 1, .search .reSearch, .insertBadIndex []], op ≠ EditX.Op.base .commit := by simp
 def exStaleX : S := EditX.run (init exCfg false 1 exLines) [.base (.insert 2 " no shutdown".toList), .removeBadValue]
 example : exStaleX.stale = true ∧
     (EditX.step exStaleX (.search .findParentObjects)).2 = .error (.base .notImplemented) ∧
-    (EditX.step exStaleX (.search .ccpReMatchIterTyped)).2 = .ok () ∧
+    (EditX.step exStaleX (.search .ccpReMatchIterTyped)).2 = .error (.base .notImplemented) ∧
     (EditX.step (commit exStaleX) (.search .findParentObjects)).2 = .ok () := by decide
 /-- `listInsObj_spec`: a blank line-object payload under `ignore_blank_lines` is inserted (and dropped again by the
 auto-commit), where the string form is refused -/
